@@ -374,8 +374,27 @@ def prove_slot_released(src_root, ex: Explorer):
             ob.name = 'C05.slot-released.' + ob.name[4:]
 
 
+def prove_relies_more(src_root, ex: Explorer):
+    """Further contracts the slot accounting rests on, discharged here as well:
+    (a) abort / pause of every state cancel and await BOTH task slots of the transfer (C06.cancel-all.*): an upload that a management
+        cycle has just started (its task exists, its state is still QUEUED) and that the user aborts must not go on to take a slot;
+    (b) a repeated PeerTransferQueue leaves a QUEUED / INITIALIZING / UPLOADING upload alone (C05.peer-queue.*);
+    (c) the users of unfinished transfers are tracked and only users WITHOUT unfinished transfers are untracked (C15.transfer.reason): the
+        selection skips users that are offline, which it only knows for tracked users."""
+    from contracts import C06, C15
+    from contracts.common import std_result as _sr
+    C06.prove_cancel_all(src_root, ex)
+    C06.prove_peer_queue_leaves_processing(src_root, ex)
+    C15.prove_transfer_reason(src_root, ex, _sr('C15'))
+    for ob in ex.obligations:
+        if ob.name.startswith('C06.'):
+            ob.name = 'C05.relies.' + ob.name[4:]
+        elif ob.name.startswith('C15.'):
+            ob.name = 'C05.relies.tracking.' + ob.name[4:]
+
+
 def items(src_root, tier):
-    return [('step', None), ('rank', None), ('slots', None), ('takes-slot', None), ('slot-released', None), ('cycle-on-change', None)] + [('bounded', ('selection', n)) for n in (1, 2)] + [('bounded', ('manage', n)) for n in (1, 2)]
+    return [('relies-more', None), ('step', None), ('rank', None), ('slots', None), ('takes-slot', None), ('slot-released', None), ('cycle-on-change', None)] + [('bounded', ('selection', n)) for n in (1, 2)] + [('bounded', ('manage', n)) for n in (1, 2)]
 
 
 def run_item(src_root, item, tier):
@@ -395,6 +414,8 @@ def run_item(src_root, item, tier):
             prove_slot_released(src_root, ex)
         elif kind == 'cycle-on-change':
             prove_cycle_on_change(src_root, ex)
+        elif kind == 'relies-more':
+            prove_relies_more(src_root, ex)
         elif kind == 'bounded':
             prove_bounded(src_root, ex, res, arg[0], arg[1])
     except Unsupported as e:
